@@ -25,7 +25,9 @@ CONSTANTS Cfgs,   \* set of configurations 1000*variant + 100*N + 10*T + MaxF  (
           L       \* generator: behaviours have exactly L steps (idle steps pad finished runs)
 
 VARIABLES N, T, Variant, MaxF,
-          kind,   \* [V -> {"unsent","good","badshare","tlow"}]  what the dealer sent to i
+          kind,   \* [V -> {"unsent","good","badshare","tlow","otherpoly","othersession"}]  what the dealer sent to i
+                  \*   otherpoly / othersession = dealer equivocation: a self-consistent deal on ANOTHER polynomial,
+                  \*   announcing this session's id / its own session id
           st,     \* [V -> {"none","app","comp"}]               i's response
           bc,     \* [V -> BOOLEAN]                             i's response was broadcast
           pend,   \* [V -> SUBSET V]                            responses waiting at a verifier without deal
@@ -57,9 +59,11 @@ Certified(p) ==      \* the code's predicates (see VSSAgg.ImplCertified)
   ELSE /\ ~bad[p] /\ app >= th /\ cmp = 0 /\ ValidThr(th)
        /\ IF tmo THEN (IF th > N THEN TRUE ELSE abs <= N - th) ELSE abs = 0
 
-(* the response of a verifier that was dealt another threshold carries another session id (it is computed
-   from the deal's commitments and T): every other party refuses it *)
-SidOK(i) == kind[i] # "tlow"
+(* a verifier that was dealt another threshold or another polynomial is, as far as session ids go, in another
+   session (the id is computed from the deal's commitments and T): the others refuse its response and it refuses
+   theirs (its aggregator tracks the id of what it was dealt) *)
+InSession(p) == p = D \/ kind[p] \in {"good", "badshare"}
+SidOK(i) == InSession(i)
 
 Record(tb, i, s) == IF tb[i] = "none" THEN [tb EXCEPT ![i] = s] ELSE tb      \* one response per verifier
 
@@ -71,16 +75,17 @@ Log(act) == /\ UNCHANGED conf
             /\ hist' = IF Gen = "hist" THEN Append(hist, act @@ Snapshot) ELSE hist
 Room == IF Gen = "hist" THEN Len(hist) <= L ELSE TRUE
 
-Faulty == Cardinality({i \in V : kind[i] \in {"badshare", "tlow"}})
+Faulty == Cardinality({i \in V : kind[i] \notin {"unsent", "good"}})
 
 (* the dealer sends verifier i a deal of kind k; i processes it, then the responses that were waiting *)
 Deal(i, k) ==
   /\ Room /\ kind[i] = "unsent"
   /\ k # "good" => Faulty < MaxF
-  /\ LET s == IF k = "good" THEN "app" ELSE "comp"
+  /\ LET s == IF k \in {"good", "othersession"} THEN "app" ELSE "comp"     \* othersession is a valid deal of another session
          own == [tab[i] EXCEPT ![i] = s]
          \* pending responses are processed in increasing index order; they are all distinct indices
-         filled == [j \in V |-> IF j \in pend[i] /\ own[j] = "none" /\ SidOK(j) THEN st[j] ELSE own[j]] IN
+         filled == [j \in V |-> IF j \in pend[i] /\ own[j] = "none" /\ SidOK(j) /\ k \in {"good", "badshare"}
+                                 THEN st[j] ELSE own[j]] IN
      /\ kind' = [kind EXCEPT ![i] = k]
      /\ st' = [st EXCEPT ![i] = s]
      /\ thr' = [thr EXCEPT ![i] = IF k = "tlow" THEN 1 ELSE T]
@@ -93,7 +98,7 @@ Deal(i, k) ==
 Bcast(i) ==
   /\ Room /\ st[i] # "none" /\ ~bc[i]
   /\ bc' = [bc EXCEPT ![i] = TRUE]
-  /\ tab' = [p \in P |-> IF p # i /\ Has(p) /\ SidOK(i) THEN Record(tab[p], i, st[i]) ELSE tab[p]]
+  /\ tab' = [p \in P |-> IF p # i /\ Has(p) /\ SidOK(i) /\ InSession(p) THEN Record(tab[p], i, st[i]) ELSE tab[p]]
   /\ pend' = [p \in V |-> IF p # i /\ ~Has(p) THEN pend[p] \cup {i} ELSE pend[p]]
   /\ dj' = [dj EXCEPT ![i] = SidOK(i) /\ st[i] = "comp" /\ tab[D][i] = "none"]
   /\ UNCHANGED <<kind, st, thr, bad, jst, wseen, tmo, early>>
@@ -104,7 +109,7 @@ Bcast(i) ==
 Justify(i, pol) ==
   /\ Room /\ bc[i] /\ st[i] = "comp" /\ jst[i] = "none" /\ dj[i]
   /\ jst' = [jst EXCEPT ![i] = pol]
-  /\ LET fails(p) == pol = "wrong" \/ (Variant = "pedersen" /\ thr[p] # T) IN      \* VerifyDeal of the revealed deal
+  /\ LET fails(p) == pol = "wrong" \/ ~InSession(p) IN      \* VerifyDeal of the revealed deal (other session id at p)
      /\ tab' = [p \in P |-> IF p # D /\ Has(p) /\ tab[p][i] = "comp" /\ ~fails(p)
                               THEN [tab[p] EXCEPT ![i] = "app"] ELSE tab[p]]
      /\ bad' = [p \in P |-> bad[p] \/ (p # D /\ Has(p) /\ tab[p][i] = "comp" /\ fails(p))]
@@ -144,7 +149,7 @@ Init ==
   /\ hist = <<[act |-> "init", N |-> N, T |-> T, variant |-> Variant]>>
 
 Next ==
-  \/ \E i \in V, k \in {"good", "badshare", "tlow"} : Deal(i, k)
+  \/ \E i \in V, k \in {"good", "badshare", "tlow", "otherpoly", "othersession"} : Deal(i, k)
   \/ \E i \in V : Bcast(i)
   \/ \E i \in V, pol \in {"correct", "wrong"} : Justify(i, pol)
   \/ Timeout
@@ -155,13 +160,14 @@ Spec == Init /\ [][Next]_vars
 -----------------------------------------------------------------------------
 (* ground truth in this model: every message is genuine, so "i approved" = st[i] = "app" and
    "i's complaint was correctly justified" = jst[i] = "correct" *)
+Poly(p) == IF p # D /\ kind[p] \in {"otherpoly", "othersession"} THEN "B" ELSE "A"
 ApprovedOrJustified == {i \in V : st[i] = "app" \/ (st[i] = "comp" /\ jst[i] = "correct")}
 CertifiedSound ==
   \A p \in P : Certified(p) =>
-      /\ Cardinality({i \in ApprovedOrJustified : tab[p][i] = "app"}) >= T
+      /\ Cardinality({i \in ApprovedOrJustified : tab[p][i] = "app" /\ Poly(i) = Poly(p)}) >= T   \* approvals of p's polynomial
       /\ \A i \in V : tab[p][i] = "app" => i \in ApprovedOrJustified
       /\ ~wseen[p]
-NoBadApproval == \A i \in V : (kind[i] \in {"badshare", "tlow"} /\ tab[i][i] = "app") => jst[i] = "correct"
+NoBadApproval == \A i \in V : (kind[i] \in {"badshare", "tlow", "otherpoly"} /\ tab[i][i] = "app") => jst[i] = "correct"
 (* dealer and verifiers follow the protocol, all responses delivered, no premature timeout: everybody certifies *)
 HonestCertifies ==
   ((\A i \in V : kind[i] = "good" /\ bc[i]) /\ ~early) => \A p \in P : Certified(p)
